@@ -236,7 +236,34 @@ def r20_4(ctx: Ctx):
         # positive evidence: the line carrying this label interpolates something else
         relabelled = [v for lab, v in labelled if lab.startswith(LABELS[what]) and v not in alts and not v.startswith(("level", "len(level", "sum(")) and f"{sn}." in v]
         wrong = not ok and bool(relabelled)
-        obs.append(ctx.ob("R20.4", s, s.node, status=OK if ok else VIOLATION if wrong else INCONCLUSIVE, detail=f"summary reports the {what} from {alts[0]}" if ok else f"summary() no longer reports the {what} from `{alts[0]}` (interpolated values: {sorted(v for v in vals if len(v) < 60)[:12]})", construct=f"summary:{what}"))
+        why_acc = None
+        if not ok and not wrong and what in ("total evaluations", "number of demes"):
+            # the figure is a running total built inside an optional part of the report: with that part switched off the header
+            # prints the initial constant
+            from ..core import parents_map
+
+            par = parents_map(s.node)
+            for lab, v in labelled:
+                if not (lab.startswith(LABELS[what]) and v.isidentifier() and v in defs):
+                    continue
+                ds = defs[v]
+                augs = [d_ for d_ in ds if isinstance(d_, ast.AugAssign)]
+                inits = [d_ for d_ in ds if isinstance(d_, ast.Constant)]
+                if not augs or len(inits) + len(augs) != len(ds):
+                    continue
+                gates = []
+                for a_ in augs:
+                    q, gate = a_, None
+                    while q is not None and q is not s.node:
+                        p_ = par.get(id(q))
+                        if isinstance(p_, ast.If) and any(isinstance(x, ast.Name) and x.id in s.params() for x in ast.walk(p_.test)) and not any(q is o_ for o_ in p_.orelse):
+                            gate = p_
+                        q = p_
+                    gates.append(gate)
+                if all(g_ is not None for g_ in gates):
+                    why_acc = f"summary() prints the {what} from the running total `{v}`, which is only accumulated under `if {norm(gates[0].test)}`: called with that option off, the header reports {norm(inits[0]) if inits else 'the initial value'} instead of `{alts[0]}`"
+            wrong = why_acc is not None
+        obs.append(ctx.ob("R20.4", s, s.node, status=OK if ok else VIOLATION if wrong else INCONCLUSIVE, detail=f"summary reports the {what} from {alts[0]}" if ok else why_acc if why_acc else f"summary() no longer reports the {what} from `{alts[0]}` (interpolated values: {sorted(v for v in vals if len(v) < 60)[:12]})", construct=f"summary:{what}"))
     # per-level figures: sum(d.n_evaluations for d in <level list>) and len(<same list>)
     import re
 
@@ -248,6 +275,20 @@ def r20_4(ctx: Ctx):
         lst = sums[0].group(2)
         ok2 = f"len({lst})" in vals
         obs.append(ctx.ob("R20.4", s, s.node, status=OK if ok2 else INCONCLUSIVE, detail=f"per-level deme count = len({lst})" if ok2 else f"summary() does not report the level's deme count as len({lst})", construct="summary:level deme count"))
+    # the level block (its evaluation and deme counts included) is printed when the level has a best individual: the candidates
+    # are the bests of ALL the level's demes that have one; a further test on the fitness VALUE empties the list for a level
+    # whose bests are all inf / NaN, and the level is then reported as having no demes
+    for g, gd in sources:
+        for comp in ast.walk(g.node):
+            if isinstance(comp, (ast.ListComp, ast.GeneratorExp)) and len(comp.generators) == 1 and isinstance(comp.elt, ast.Attribute) and comp.elt.attr == "best_individual" and isinstance(comp.generators[0].target, ast.Name):
+                dv = comp.generators[0].target.id
+                conds = []
+                for c_ in comp.generators[0].ifs:
+                    conds += c_.values if isinstance(c_, ast.BoolOp) and isinstance(c_.op, ast.And) else [c_]
+                plain = lambda c_: norm(c_) in (f"{dv}.best_individual", f"{dv}.best_individual is not None", f"{dv}.best_individual != None")
+                onval = [c_ for c_ in conds if not plain(c_) and any(isinstance(x, ast.Attribute) and x.attr in ("fitness", "genome") for x in ast.walk(c_))]
+                other = [c_ for c_ in conds if not plain(c_) and c_ not in onval]
+                obs.append(ctx.ob("R20.4", g, comp, status=VIOLATION if onval else INCONCLUSIVE if other else OK, detail=f"the level's best is drawn from every deme that has one" if not (onval or other) else f"the level's candidates are filtered by `{norm((onval or other)[0])[:70]}`: a level whose demes' bests all fail that test is reported as 'No demes available.' and its evaluation and deme counts are not printed although the demes exist and have evaluated" if onval else f"cannot tell what `{norm(other[0])[:60]}` removes from the level's candidates", construct="summary:level candidates"))
     fd = ctx.prog.modules["pyhms.utils.print_tree"].functions["format_deme"]
     d = fd.params()[0]
     fdefs = local_defs(fd)
